@@ -50,15 +50,27 @@ class GFiveStage(Integrator):
         self.do_post_stage(dt, 5)
 
 
+# arrays of the side (compiled / literal) that is currently stepping, by name: lets a py hook of one array look at another
+REG = {}
+
+
 class TStep(IntegratorStep):
     """tracing stepper: exact integer arithmetic mod 1000003; every stage folds the stage time t and dt into the state
-    and moves the particle a little so that neighbours change"""
-    def __init__(self, c=1.0, move=0.02):
+    and moves the particle a little so that neighbours change; optionally grows h (the domain update must then refresh
+    the cell size) and lets its py_stage1 hook read the state of the array stepped before it"""
+    def __init__(self, c=1.0, move=0.02, grow=1.0, peer=0.0):
         self.c = c
         self.move = move
+        self.grow = grow
+        self.peer = peer
 
     def py_stage1(self, dst, t, dt):
         dst.c0[0] = (3.0*dst.c0[0] + self.c + 8.0*t + 1600.0*dt) % 1000003.0
+        if self.peer > 0.5:
+            import engines.integ_defs as _D
+            other = _D.REG.get('f')
+            if other is not None and other is not dst:
+                dst.c0[0] = (dst.c0[0] + float(other.get('s', only_real_particles=False).sum())) % 1000003.0
 
     def py_stage3(self, dst, t, dt):
         dst.c0[0] = (5.0*dst.c0[0] + 2.0*self.c + 8.0*t + 1600.0*dt) % 1000003.0
@@ -67,9 +79,10 @@ class TStep(IntegratorStep):
         d_s0[d_idx] = d_s[d_idx]
         d_s[d_idx] = (3.0*d_s[d_idx] + self.c) % 1000003.0
 
-    def stage1(self, d_idx, d_s, d_au, d_c0, d_x, t, dt):
+    def stage1(self, d_idx, d_s, d_au, d_c0, d_x, d_h, t, dt):
         d_s[d_idx] = (5.0*d_s[d_idx] + d_au[d_idx] + d_c0[0] + 8.0*t + 1600.0*dt + self.c) % 1000003.0
         d_x[d_idx] = d_x[d_idx] + self.move*((d_s[d_idx] % 3.0) - 1.0)
+        d_h[d_idx] = d_h[d_idx]*self.grow
 
     def stage2(self, d_idx, d_s, d_s0, d_au, d_x, t, dt):
         d_s[d_idx] = (7.0*d_s[d_idx] + d_s0[d_idx] + 2.0*d_au[d_idx] + 8.0*t + 1600.0*dt) % 1000003.0
